@@ -209,7 +209,13 @@ inline void compareNode(const Node &got, const Node &want, const std::string &pa
   for (auto &kv : want.properties) {
     PBT_ASSERT(got.hasProp(kv.first) && got.getProp(kv.first) == kv.second && got.getProp(kv.first, "fallback") == kv.second);
   }
-  PBT_ASSERT(!got.hasProp("no.such.prop") && got.getProp("no.such.prop", "fb") == "fb");
+  {
+    // a name that is certainly absent from this node (coverage-guided fuzzing learns any fixed sentinel)
+    std::string absent = "absent";
+    while (want.properties.count(absent))
+      absent += "_";
+    PBT_ASSERT(!got.hasProp(absent) && got.getProp(absent, "fb") == "fb");
+  }
   PBT_ASSERT_MSG(got.child.size() == want.child.size(), path << "/" << want.name << ": " << got.child.size() << " children, want " << want.child.size());
   for (size_t i = 0; i < want.child.size(); ++i)
     compareNode(got.child[i], want.child[i], path + "/" + want.name);
